@@ -21,7 +21,8 @@ EXPLANATION = (
     "containment is never a string-prefix test; the absolute branch of _get_arrow_path has the same shape; (R3) "
     "open_parquet_source validates before opening; listings raise on '..'."
     ' Also: every return of the two sanitisers is sanitised (no prefix-tested fast path).'
-    " (R4) no lexical path normalisation (normpath / abspath) anywhere in the package: '..' reaches the resolver's realpath + boundary check unfolded.")
+    " (R4) no lexical path normalisation (normpath / abspath) anywhere in the package: '..' reaches the resolver's realpath + boundary check unfolded."
+    ' (R5) key mapping round trip by scenario evaluation incl. sibling-prefix and doubled-slash keys (C20.R9); (R6) on S3 the root is enforced by _get_s3_key: only the backend, the range reader and the lock providers hold the raw client, and every key they use comes from _get_s3_key / create_lock.')
 NOT_DECIDED = "behaviour of realpath on symlink arrangements at run time; TOCTOU between check and use"
 
 SANITISERS = {"_resolve_path", "_get_arrow_path", "_real_base_path"}
